@@ -610,6 +610,35 @@ def run_history(hid, rng, sccache, model_fn, port, verdict, n_ops, known_ids):
             direct, wrapped = mask_nondeterministic(args, before, direct, wrapped)
             judge(args, direct, wrapped, s0, s1, note, expect_known)
 
+        def burst(jobs):
+            """concurrent clients against the one server: direct runs first (sequentially, tree restored), then all wrapped at once"""
+            directs = []
+            before = None
+            for a in jobs:
+                before, d = one_request(a)
+                directs.append(d)
+            s0 = srv.stats()
+            env = srv.env(envx)
+            procs = [subprocess.Popen([sccache, compiler] + a, cwd=tree, env=env, stdout=subprocess.PIPE, stderr=subprocess.PIPE,
+                                      stdin=subprocess.DEVNULL) for a in jobs]
+            res = []
+            for p in procs:
+                try:
+                    o, e = p.communicate(timeout=180)
+                except subprocess.TimeoutExpired:
+                    p.kill()
+                    o, e = b'', b'[timeout]'
+                res.append((p.returncode, o, e))
+            after = changed(before, snapshot(tree))
+            s1 = srv.stats()
+            for a, d, r in zip(jobs, directs, res):
+                mine = {k: v for k, v in after.items() if k in d[3] or not any(k in dd[3] for dd in directs)}
+                d2, w2 = mask_nondeterministic(a, before, d, (r[0], r[1], r[2], mine))
+                judge(a, d2, w2, None, None, 'one of %d concurrent clients' % len(jobs), check_stats=False)
+            if s0 and s1 and s1['compile_requests'] - s0['compile_requests'] != len(jobs):
+                verdict.violations.append(('stats', '%d concurrent requests counted as %d' % (len(jobs), s1['compile_requests'] - s0['compile_requests']),
+                                           {'history': hid}))
+
         do_compile('first')
         do_compile('repeat')
 
@@ -664,6 +693,12 @@ def run_history(hid, rng, sccache, model_fn, port, verdict, n_ops, known_ids):
                 write_file(tree, 'ignore.txt', content, same)
                 do_compile('extra hashed file rewritten (same size, SAME mtime): %s' % content.decode().strip(), args=sargs)
             verdict.count('extra-hash-file-block')
+
+        # (1d) requests answered from the cache OVERLAPPING requests that run the compiler, on one server: 4 hits + 4 misses at once
+        for rnd in range(2):
+            burst([fl.args(out_override='h%d.o' % j) for j in range(4)]
+                  + [fl.args(out_override='m%d.o' % j, define_override=100 + 10 * rnd + j) for j in range(4)])
+        verdict.count('mixed-hit-miss-burst', 2)
 
         # (2) the header search path given through the ENVIRONMENT, two directories with a same-named header of different contents
         var = rng.choice(['CPATH', 'CPLUS_INCLUDE_PATH' if cxx else 'C_INCLUDE_PATH'])
@@ -747,35 +782,7 @@ def run_history(hid, rng, sccache, model_fn, port, verdict, n_ops, known_ids):
                 srv.start()
                 do_compile('after server restart')
             elif op == 'concurrent':
-                jobs = []
-                for j in range(4):
-                    jobs.append(fl.args(out_override='c%d.o' % j, define_override=rng.choice([1, 1, 2, 5])))
-                directs = []
-                before = None
-                for a in jobs:
-                    before, d = one_request(a)
-                    directs.append(d)
-                s0 = srv.stats()
-                env = srv.env(envx)
-                procs = [subprocess.Popen([sccache, compiler] + a, cwd=tree, env=env, stdout=subprocess.PIPE, stderr=subprocess.PIPE,
-                                          stdin=subprocess.DEVNULL) for a in jobs]
-                res = []
-                for p in procs:
-                    try:
-                        o, e = p.communicate(timeout=180)
-                    except subprocess.TimeoutExpired:
-                        p.kill()
-                        o, e = b'', b'[timeout]'
-                    res.append((p.returncode, o, e))
-                after = changed(before, snapshot(tree))
-                s1 = srv.stats()
-                for a, d, r in zip(jobs, directs, res):
-                    mine = {k: v for k, v in after.items() if k in d[3] or not any(k in dd[3] for dd in directs)}
-                    d2, w2 = mask_nondeterministic(a, before, d, (r[0], r[1], r[2], mine))
-                    judge(a, d2, w2, None, None, 'one of 4 concurrent clients', check_stats=False)
-                if s0 and s1 and s1['compile_requests'] - s0['compile_requests'] != 4:
-                    verdict.violations.append(('stats', 'four concurrent requests counted as %d' % (s1['compile_requests'] - s0['compile_requests']),
-                                               {'history': hid}))
+                burst([fl.args(out_override='c%d.o' % j, define_override=rng.choice([1, 1, 2, 5])) for j in range(4)])
             elif op == 'error':
                 fl.err = True
                 do_compile('error variant')
